@@ -475,6 +475,83 @@ def alloc_consistent(tree):
     return all(v <= cap[p] for (p, _), v in use.items())
 
 
+def _maps(tree):
+    byid = {n["id"]: n for n in tree["nodes"]}
+    desc = {}
+
+    def d(nid):
+        if nid not in desc:
+            out = {nid}
+            for c in byid[nid].get("children", []):
+                out |= d(c)
+            desc[nid] = out
+        return desc[nid]
+
+    for n in tree["nodes"]:
+        d(n["id"])
+    return byid, desc
+
+
+def _cond(byid, nid):
+    """Does the satisfaction of the node depend on the placement (anything but Allocation-only)?"""
+    n = byid[nid]
+    if n["type"] == "Allocation":
+        return False
+    if n["type"] in ("Choose", "WindowedChoose", "MalleableChoose", "Max"):
+        return True
+    return any(_cond(byid, c) for c in n.get("children", []))
+
+
+def well_formed(tree):
+    """Input domain of the random / bounded generators (the directed families are hand-made):
+      * the running tasks (Allocations) alone fit the partitions;
+      * orderings are acyclic: no sub-expression is ordered before itself
+        (a node below both sides of one LessThan);
+      * an Allocation-only composite (Min / LessThan / Scale over nothing but Allocations)
+        hangs directly under the Objective: the library gives such a node a constant utility
+        (ConvTrivialMinBonus, Scale-with-disregard) that is not conditioned on its parents."""
+    if not alloc_consistent(tree):
+        return False
+    byid, desc = _maps(tree)
+    root = byid[tree["root"]]
+    for n in tree["nodes"]:
+        if n["type"] == "LessThan":
+            a, b = n["children"]
+            if desc[a] & desc[b]:
+                return False
+        if n["type"] in ("Min", "LessThan", "Scale") and not _cond(byid, n["id"]) and n["id"] not in root["children"]:
+            return False
+    return True
+
+
+def features(tree):
+    """Coarse traits of a tree, used to name findings (never to judge them)."""
+    byid, desc = _maps(tree)
+    f = set()
+    parents = {}
+    for n in tree["nodes"]:
+        for c in n.get("children", []):
+            parents[c] = parents.get(c, 0) + 1
+    const_leaf = ("Choose", "Allocation")
+    for n in tree["nodes"]:
+        t = n["type"]
+        if t == "MalleableChoose":
+            f.add("M")
+        if t == "Choose" and n["start"] < tree["now"]:
+            f.add("past")
+        if t == "LessThan":
+            kinds = {byid[x]["type"] for x in desc[n["id"]]}
+            if "Allocation" in kinds:
+                f.add("ltA")
+            if "WindowedChoose" in kinds:
+                f.add("ltW")
+            if all(byid[c]["type"] in const_leaf for c in n["children"]):
+                f.add("ltCC")
+            if any(parents.get(x, 0) > 1 for x in desc[n["id"]] if x != n["id"]):
+                f.add("ltShared")
+    return "+".join(sorted(f)) if f else "plain"
+
+
 def corpus(tier, rng, cfg):
     trees = systematic()
     seen = {canonical(t) for t in trees}
@@ -486,7 +563,7 @@ def corpus(tier, rng, cfg):
         attempts += 1
         t = random_tree(rng, k, max_leaves=max_leaves, max_depth=3 if tier == "quick" else 4)
         c = canonical(t)
-        if c in seen or not leaves(t) or len(leaves(t)) > max_leaves or not alloc_consistent(t):
+        if c in seen or not leaves(t) or len(leaves(t)) > max_leaves or not well_formed(t):
             continue
         seen.add(c)
         trees.append(t)
